@@ -55,6 +55,38 @@ func (fr *Frame) callInner(in ssa.Instruction, c *ssa.CallCommon, st *State, pc 
 	sig := c.Signature()
 	fr.lastCallee = ""
 	if b, ok := c.Value.(*ssa.Builtin); ok {
+		// "at call close assert ..." (and other builtins with side effects):
+		// call-site assertions of the enclosing contract apply to builtins too,
+		// under the name "builtin.<name>" (matched by the suffix "<name>").
+		if fr.top && fr.contract != nil && (b.Name() == "close" || b.Name() == "delete" || b.Name() == "panic") {
+			name := "builtin." + b.Name()
+			var bargs []Term
+			var btypes []types.Type
+			for _, a := range c.Args {
+				bargs = append(bargs, fr.val(a))
+				btypes = append(btypes, a.Type())
+			}
+			fr.callOrd[name]++
+			for _, cs := range fr.contract.CallSites {
+				if cs.Clause.Kind != "callsite" || !calleeMatches(cs.Callee, name) {
+					continue
+				}
+				if cs.Ordinal != 0 && cs.Ordinal != fr.callOrd[name] {
+					continue
+				}
+				env := fr.specEnv(st, pc)
+				vars := map[string]TV{}
+				for i, a := range bargs {
+					vars[fmt.Sprintf("arg%d", i)] = TV{a, btypes[i]}
+				}
+				g, err := env.with(vars).evalBool(cs.Clause.E)
+				if err != nil {
+					vc.specError(cs.Clause, err)
+				} else {
+					vc.oblige("callsite", cs.Clause.Label, fmt.Sprintf("%s#%d:%s", b.Name(), fr.callOrd[name], labelOr(cs.Clause.Label, "assert")), pc, g, cs.Clause.Src)
+				}
+			}
+		}
 		return fr.builtin(in, b, c, st, pc)
 	}
 	var args []Term
@@ -676,7 +708,13 @@ func (fr *Frame) builtin(in ssa.Instruction, b *ssa.Builtin, c *ssa.CallCommon, 
 		return nil
 	case "panic":
 		return nil
-	case "print", "println", "close":
+	case "print", "println":
+		return nil
+	case "close":
+		// ghost counter of close operations (only if a contract declares it)
+		if len(c.Args) == 1 {
+			vc.chanCount("chcloses", fr.val(c.Args[0]), tTrue, st)
+		}
 		return nil
 	case "recover":
 		return []Term{fr.freshTyped("recover", types.NewInterfaceType(nil, nil), st, pc)}
@@ -922,6 +960,42 @@ func (fr *Frame) next(in *ssa.Next, st *State, pc Term) {
 
 func (fr *Frame) send(in *ssa.Send, st *State, pc Term) {
 	fr.vc.chanSendObligation(fr, in.Chan, fr.val(in.X), st, pc)
+	fr.vc.chanCount("chsends", fr.val(in.Chan), tTrue, st)
+	fr.vc.chanLast(fr.val(in.Chan), fr.val(in.X), tTrue, st)
+}
+
+// chanCount bumps the ghost counter map `name` at channel ch when cond holds.
+// The maps chsends / chrecvs exist only if a contract file of the property
+// declares them ("//@ ghost chsends map[int]int"); they count the send and the
+// successful receive operations executed by the verified function itself (the
+// operations of other goroutines are not part of a sequential execution), so
+// contracts can state token disciplines such as "every successful receive is
+// followed by exactly one send before returning".
+func (vc *VC) chanCount(name string, ch Term, cond Term, st *State) {
+	g := vc.specs.ghost(name)
+	if g == nil || !g.IsMap || ch.Sort != SInt {
+		return
+	}
+	h := vc.heap(st, g.heapName(), g.sort())
+	cur := sel(h, ch)
+	st.heaps[g.heapName()] = vc.def("h", store(h, ch, ite(cond, add(cur, intLit(1)), cur)))
+}
+
+// chanLast records the last value sent on ch in the ghost map chlast (if
+// declared), for reference-like (integer-sorted) element values.
+func (vc *VC) chanLast(ch, v Term, cond Term, st *State) {
+	vc.chanLastNamed("chlast", ch, v, cond, st)
+}
+
+// chanLastNamed: chlast[ch] is the last value sent on ch, chlastrecv[ch] the
+// last value successfully received from ch, by the verified function.
+func (vc *VC) chanLastNamed(name string, ch, v Term, cond Term, st *State) {
+	g := vc.specs.ghost(name)
+	if g == nil || !g.IsMap || ch.Sort != SInt || v.Sort != SInt {
+		return
+	}
+	h := vc.heap(st, g.heapName(), g.sort())
+	st.heaps[g.heapName()] = vc.def("h", store(h, ch, ite(cond, v, sel(h, ch))))
 }
 
 func (fr *Frame) recv(in *ssa.UnOp, st *State, pc Term) {
@@ -932,9 +1006,13 @@ func (fr *Frame) recv(in *ssa.UnOp, st *State, pc Term) {
 	if in.CommaOk {
 		okT := vc.fresh("recvok", SBool)
 		fr.tuples[in] = []Term{ite(okT, v, vc.zero(elem)), okT}
+		vc.chanCount("chrecvs", fr.val(in.X), okT, st)
+		vc.chanLastNamed("chlastrecv", fr.val(in.X), v, okT, st)
 		return
 	}
 	fr.vals[in] = v
+	vc.chanCount("chrecvs", fr.val(in.X), tTrue, st)
+	vc.chanLastNamed("chlastrecv", fr.val(in.X), v, tTrue, st)
 }
 
 func (fr *Frame) selectOp(in *ssa.Select, st *State, pc Term) {
@@ -952,9 +1030,13 @@ func (fr *Frame) selectOp(in *ssa.Select, st *State, pc Term) {
 			elem := s.Chan.Type().Underlying().(*types.Chan).Elem()
 			v := fr.freshTyped("selrecv", elem, st, pc)
 			vc.chanRecvAssume(fr, s.Chan, v, st, and(pc, eq(idx, intLit(int64(i)))))
+			vc.chanCount("chrecvs", fr.val(s.Chan), and(eq(idx, intLit(int64(i))), okT), st)
+			vc.chanLastNamed("chlastrecv", fr.val(s.Chan), v, and(eq(idx, intLit(int64(i))), okT), st)
 			res = append(res, v)
 		} else {
 			vc.chanSendObligation(fr, s.Chan, fr.val(s.Send), st, and(pc, eq(idx, intLit(int64(i)))))
+			vc.chanCount("chsends", fr.val(s.Chan), eq(idx, intLit(int64(i))), st)
+			vc.chanLast(fr.val(s.Chan), fr.val(s.Send), eq(idx, intLit(int64(i))), st)
 		}
 	}
 	fr.tuples[in] = res
